@@ -1007,3 +1007,13 @@ func tryDocFault(name string, f func(*rapid.T, *TypedDoc, *ref.Schema) bool, t *
 	}
 	return false
 }
+
+// ApplyDocFaultNamed injects the named fault if it has a target.
+func ApplyDocFaultNamed(t *rapid.T, td *TypedDoc, s *ref.Schema, name string) bool {
+	for _, op := range docFaultOps {
+		if op.name == name {
+			return tryDocFault(op.name, op.f, t, td, s)
+		}
+	}
+	return false
+}
